@@ -158,15 +158,24 @@ func (c *corpus) decode(s *seed, input []byte) (outcome string, novalue string) 
 		var e error
 		switch m := msg.(type) {
 		case *msgs.BlockMessage:
-			_, e = m.GetBlock()
+			var b *types.Block
+			if b, e = m.GetBlock(); e == nil && b == nil {
+				return "nil", "BlockMessage.GetBlock returned a nil block and a nil error"
+			}
 		case *msgs.MineBlockMessage:
-			_, e = m.GetMineBlock()
+			var b *types.Block
+			if b, e = m.GetMineBlock(); e == nil && b == nil {
+				return "nil", "MineBlockMessage.GetMineBlock returned a nil block and a nil error"
+			}
 		case *msgs.HeadersMessage:
 			_, e = m.GetHeaders()
 		case *msgs.BlocksMessage:
 			_, e = m.GetBlocks()
 		case *msgs.TransactionMessage:
-			_, e = m.GetTransaction()
+			var tx *types.Tx
+			if tx, e = m.GetTransaction(); e == nil && (tx == nil || tx.Tx == nil) {
+				return "nil", "TransactionMessage.GetTransaction returned no (mapped) transaction and a nil error"
+			}
 		case *msgs.TransactionsMessage:
 			_, e = m.GetTransactions()
 		case *msgs.GetHeadersMessage:
@@ -201,8 +210,12 @@ func (c *corpus) decode(s *seed, input []byte) (outcome string, novalue string) 
 		}
 		_ = msg.String()
 		if m, ok := msg.(*consensusmgr.BlockProposeMsg); ok {
-			if _, e := m.GetProposeBlock(); e != nil {
+			b, e := m.GetProposeBlock()
+			if e != nil {
 				return "msg-err", ""
+			}
+			if b == nil {
+				return "nil", "BlockProposeMsg.GetProposeBlock returned a nil block and a nil error"
 			}
 		}
 		return "ok", ""
@@ -223,8 +236,12 @@ func (c *corpus) decode(s *seed, input []byte) (outcome string, novalue string) 
 		return "ok", ""
 	case seamStoreHdr:
 		h := s.Hash
-		if _, err := database.GetBlockHeader(c.disk, &h); err != nil {
+		hdr, err := database.GetBlockHeader(c.disk, &h)
+		if err != nil {
 			return "err", ""
+		}
+		if hdr == nil {
+			return "nil", "database.GetBlockHeader returned a nil header and a nil error"
 		}
 		return "ok", ""
 	case seamStoreTxs:
@@ -236,8 +253,11 @@ func (c *corpus) decode(s *seed, input []byte) (outcome string, novalue string) 
 	case seamStoreCp:
 		h := s.Hash
 		st := c.store
-		_, err1 := st.GetCheckpoint(&h)
+		cp, err1 := st.GetCheckpoint(&h)
 		_, err2 := st.GetCheckpointsByHeight(s.Height)
+		if err1 == nil && cp == nil {
+			return "nil", "Store.GetCheckpoint returned a nil checkpoint and a nil error"
+		}
 		if err1 != nil || err2 != nil {
 			return "err", ""
 		}
@@ -338,6 +358,9 @@ func execC05(t *testing.T, plan any, r *simkit.Run) {
 		}
 		if delta > bound/2 {
 			r.Count("probe.alloc_above_half_bound", 1)
+			if os.Getenv("SEAMFUZZ_DEBUG") != "" {
+				fmt.Fprintf(os.Stderr, "ABOVE-HALF delta=%d bound=%d %s [%s] len=%d -> %s\n", delta, bound, s.Name, desc, len(input), outcome)
+			}
 		}
 	}
 	r.Count("corpus."+c.sum, 1)
